@@ -42,6 +42,7 @@ use syn::{Fields, ItemEnum};
 use crate::graph::Config;
 use crate::leaf::VariantKind;
 use crate::parser::{Definition, ErrorType, Subpatterns};
+use crate::util::MaybeVoid;
 
 const LOGOS_ATTR: &str = "logos";
 const ERROR_ATTR: &str = "error";
@@ -256,10 +257,28 @@ pub fn generate(input: TokenStream) -> TokenStream {
     debug!("Parsing additional options (extras, utf8, ...)");
 
     let ErrorType {
-        ty: error_type,
+        ty: mut error_type,
         callback: error_callback,
     } = parser.error_type.take().unwrap_or_default();
-    let extras = parser.extras.take();
+    // The error type, the extras type and the crate path are spliced into the generated
+    // implementation as they are: make sure they are a type / a path.
+    if syn::parse2::<syn::Type>(error_type.clone()).is_err() {
+        parser.err(
+            concat!(
+                "Expected: #[logos(error = SomeType)] or ",
+                "#[logos(error(SomeType[, callback))]"
+            ),
+            error_type.span(),
+        );
+        error_type = quote!(());
+    }
+    let mut extras = parser.extras.take();
+    if let MaybeVoid::Some(ty) = &extras {
+        if syn::parse2::<syn::Type>(ty.clone()).is_err() {
+            parser.err("Expected: #[logos(extras = SomeType)]", ty.span());
+            extras = MaybeVoid::Void;
+        }
+    }
     let non_utf8_pats = pats
         .iter()
         .filter(|leaf| !leaf.pattern.hir().properties().is_utf8())
@@ -278,10 +297,17 @@ pub fn generate(input: TokenStream) -> TokenStream {
         true => quote!(::core::primitive::str),
         false => quote!([::core::primitive::u8]),
     };
-    let logos_path = parser
+    let mut logos_path = parser
         .logos_path
         .take()
         .unwrap_or_else(|| parse_quote!(::logos));
+    if syn::parse2::<syn::Path>(logos_path.clone()).is_err() {
+        parser.err(
+            "Expected: #[logos(crate = path::to::logos)]",
+            logos_path.span(),
+        );
+        logos_path = parse_quote!(::logos);
+    }
 
     let generics = parser.generics();
     let this = quote!(#name #generics);
